@@ -213,6 +213,8 @@ def run_check(cid, tier, only=None, verbose=True):
                                                                     error=(rr.get('error') or '')[:300]))
             else:
                 v = r['validation'][k]
+                if rr.get('status') == 'assumption_failed':
+                    continue        # the concrete replay left the stated bounds (e.g. one more restart): not a validation sample
                 if rr.get('status') != 'ok':
                     problems.append(f'{it.name}: validation replay {rr.get("status")}: {(rr.get("error") or "")[:400]}')
                     continue
